@@ -75,6 +75,7 @@ class ModbusBinaryFramer(ModbusFramer):
             return False
         if start > 0:  # go ahead and skip old bad data
             self._buffer = self._buffer[start:]
+            start = 0
 
         end = self._buffer.find(self._end)
         if end != -1:
@@ -91,7 +92,7 @@ class ModbusBinaryFramer(ModbusFramer):
         it or determined that it contains an error. It also has to reset the
         current frame header handle
         """
-        self._buffer = self._buffer[self._header['len'] + 2:]
+        self._buffer = self._buffer[self._header['len'] + 1:]
         self._header = {'crc':0x0000, 'len':0, 'uid':0x00}
 
     def isFrameReady(self):
@@ -173,13 +174,20 @@ class ModbusBinaryFramer(ModbusFramer):
                 else:
                     _logger.debug("Not a valid unit id - {}, "
                                   "ignoring!!".format(self._header['uid']))
-                    self.resetFrame()
-                    break
-
-            else:
+                    # skip only the frame addressed to another unit
+                    self.advanceFrame()
+            elif self._buffer.find(self._start) == -1:
+                # no start of frame at all, nothing worth keeping
                 _logger.debug("Frame check failed, ignoring!!")
                 self.resetFrame()
                 break
+            elif self._buffer.find(self._end) == -1:
+                # the frame is not complete yet, wait for the rest of it
+                break
+            else:
+                # a complete frame whose CRC does not match: drop just it
+                _logger.debug("Frame check failed, ignoring!!")
+                self.advanceFrame()
 
     def buildPacket(self, message):
         """ Creates a ready to send modbus packet
